@@ -7,7 +7,7 @@ From Coq Require Import List NArith ZArith Bool Lia.
 From GoPdf.Base Require Import Bytes Res.
 From GoPdf.Gen Require Import Gen_Consts Gen_Limits Gen_C05.
 From GoPdf.C05 Require Import Refill RefillProofs PrevChain PrevChainProofs Resolve ResolveProofs
-     Walk WalkProofs XRefCount XRefCountProofs ObjStmGet ObjStmGetProofs Nest NestProofs ObjStmIndex ObjStmIndexProofs DecodePath DecodePathProofs.
+     Walk WalkProofs XRefCount XRefCountProofs ObjStmGet ObjStmGetProofs Nest NestProofs ObjStmIndex ObjStmIndexProofs DecodePath DecodePathProofs Stages StagesProofs.
 Import ListNotations.
 Close Scope Z_scope.
 Close Scope N_scope.
@@ -431,3 +431,41 @@ Example decode_diamond :
   decode_in [(1, DNode [2; 3]); (2, DNode [4]); (3, DNode [4]); (4, DNull)]%N 1%N
   = DOk (mkD [1; 3; 2; 4]%N 4).
 Proof. vm_compute. reflexivity. Qed.
+
+(* ---- (10) closing a filter chain; the documented stream budget --------- *)
+
+(* sourceAwareReader.Close: for ANY chain of stages and ANY results of their
+   Close calls, every stage is closed exactly once and the error reported is
+   the outer stage's *)
+Theorem close_all_stages :
+  forall (results : list (option cls)),
+    let '(err, trace) := close_chain false results in
+    NoDup trace /\
+    (forall i, In i trace <-> i < length results) /\
+    err = nth (length results - 1) results None.
+Proof. exact close_all_stages_lemma. Qed.
+Print Assumptions close_all_stages.
+
+(* the variant that returns as soon as the outer Close reports an error
+   (seeded change C05-12) leaves the inner stage - the pipe - open *)
+Theorem close_early_return_refuted :
+  forall c, close_chain true [None; Some c] = (Some c, [1]) /\
+            ~ In 0 (snd (close_chain true [None; Some c])).
+Proof. exact close_early_return_refuted_lemma. Qed.
+Print Assumptions close_early_return_refuted.
+
+(* the TRANSLATED limits.StreamBudget: never below the base, never above
+   base + hard cap, linear below the knee, flat above it - for every rawLen *)
+Theorem stream_budget_bound :
+  forall rawLen : Z,
+    (StreamBudgetBase <= StreamBudget rawLen <= StreamBudgetBase + StreamBudgetHardCap)%Z /\
+    ((0 <= rawLen <= StreamBudgetHardCap / StreamBudgetMultiplier)%Z ->
+       StreamBudget rawLen = (StreamBudgetBase + StreamBudgetMultiplier * rawLen)%Z) /\
+    ((StreamBudgetHardCap / StreamBudgetMultiplier < rawLen)%Z ->
+       StreamBudget rawLen = (StreamBudgetBase + StreamBudgetHardCap)%Z) /\
+    ((rawLen <= 0)%Z -> StreamBudget rawLen = StreamBudgetBase).
+Proof. exact stream_budget_bound_lemma. Qed.
+Print Assumptions stream_budget_bound.
+
+Example close_three : close_chain false [None; Some Malformed; Some (IO 3)] = (Some (IO 3), [2; 1; 0]).
+Proof. reflexivity. Qed.
